@@ -26,6 +26,7 @@ import (
 	"github.com/alibaba/sentinel-golang/core/flow"
 	"github.com/alibaba/sentinel-golang/core/hotspot"
 	"github.com/alibaba/sentinel-golang/core/isolation"
+	"github.com/alibaba/sentinel-golang/core/system"
 
 	"verif/coop"
 	"verif/sx"
@@ -51,6 +52,9 @@ type mod struct {
 	deny func(res string, ver int) string
 	// noClear: the blocking rule's state does not survive a clear (an open breaker would be re-created closed)
 	noClear bool
+	// global: the module has one rule set for the whole process (system rules): no per-resource operations, no second
+	// resource
+	global bool
 }
 
 var curMod *mod
@@ -243,6 +247,55 @@ func cbMod() *mod {
 	return m
 }
 
+// system rules: one process-wide set; the block-all rule is an inbound-concurrency trigger of 0
+func sysMod() *mod {
+	list := func(ver int) []*system.Rule {
+		if ver < 0 {
+			return nil
+		}
+		return []*system.Rule{{ID: "gate", MetricType: system.InboundQPS, TriggerCount: 1e12, Strategy: system.NoAdaptive},
+			{ID: fmt.Sprintf("deny-R-%d", ver), MetricType: system.Concurrency, TriggerCount: 0, Strategy: system.NoAdaptive},
+			{ID: "allow", MetricType: system.Load, TriggerCount: 1e12, Strategy: system.NoAdaptive}}
+	}
+	m := &mod{name: "system", global: true}
+	m.loadAll = func(R, S string, ver int) { system.LoadRules(list(ver)) }
+	m.loadRes = func(res string, ver int) {
+		if ver < 0 {
+			system.ClearRules()
+		} else {
+			system.LoadRules(list(ver))
+		}
+	}
+	m.ids = func(res string) []string {
+		// (the getter flattens a map: canonical order gate, deny, allow)
+		var gate, deny, allow, rest []string
+		for _, r := range system.GetRules() {
+			switch {
+			case r.ID == "gate":
+				gate = append(gate, r.ID)
+			case r.ID == "allow":
+				allow = append(allow, r.ID)
+			case len(r.ID) > 4 && r.ID[:4] == "deny":
+				deny = append(deny, r.ID)
+			default:
+				rest = append(rest, r.ID)
+			}
+		}
+		return append(append(append(gate, deny...), rest...), allow...)
+	}
+	m.entry = func(res string) (*base.SentinelEntry, *base.BlockError) {
+		return sentinel.Entry(res, sentinel.WithTrafficType(base.Inbound))
+	}
+	m.blocker = func(b *base.BlockError) string {
+		if r, ok := b.TriggeredRule().(*system.Rule); ok && r != nil {
+			return r.ID
+		}
+		return "?"
+	}
+	m.clear = func() { system.ClearRules() }
+	return m
+}
+
 type stepD struct {
 	K   string `json:"k"`             // all | res | clear | other | req-R | req-S | get
 	Ver int    `json:"ver,omitempty"` // generation loaded by all / res
@@ -269,7 +322,7 @@ type reqRec struct {
 
 var run *vk.Run
 var caseNo int
-var mods = []*mod{flowMod(), isoMod(), hotMod(), cbMod()}
+var mods = []*mod{flowMod(), isoMod(), hotMod(), cbMod(), sysMod()}
 
 func gen(rng *rand.Rand) *caseDesc {
 	gm := mods[rng.Intn(len(mods))]
@@ -288,6 +341,9 @@ func gen(rng *rand.Rand) *caseDesc {
 			}
 			return stepD{K: "clear"}
 		default:
+			if gm.global {
+				return stepD{K: "all", Ver: ver}
+			}
 			return stepD{K: "other", Ver: ver}
 		}
 	}
@@ -302,7 +358,11 @@ func gen(rng *rand.Rand) *caseDesc {
 	for q, nq := 0, 1+rng.Intn(2); q < nq; q++ {
 		var w []stepD
 		for i, n := 0, 1+rng.Intn(3); i < n; i++ {
-			w = append(w, stepD{K: vk.PickS(rng, "req-R", "req-R", "req-S", "get")})
+			k := vk.PickS(rng, "req-R", "req-R", "req-S", "get")
+			if gm.global && k == "req-S" {
+				k = "req-R"
+			}
+			w = append(w, stepD{K: k})
 		}
 		c.Workers = append(c.Workers, w)
 	}
@@ -535,7 +595,7 @@ func main() {
 	vclock.New(1900000000000)
 	run = vk.Start("C15", "coop")
 	defer run.Finish()
-	run.Rule("schedule = (module flow / isolation / hotspot / circuitbreaker (an unchanged open breaker behind a rule that changes with every load); 1-2 updaters x 1-2 updates of resource R: whole-set load, per-resource load, per-resource clear, load of an unrelated resource; 1-2 callers x 1-3 requests on R / on the un-churned always-block resource S / getter calls; choice sequence at every lock acquisition of the module's rule manager (and parameter caches) and every shimmed atomic access of the per-rule checks) under random walk, PCT d<=3 and bounded DFS; requests decided by one admissible list, S always blocked by its own rule, reported == enforced and final state = outcome of an update that finished last, termination. distinct = distinct (case, interleaving).")
+	run.Rule("schedule = (module flow / isolation / hotspot / system / circuitbreaker (an unchanged open breaker behind a rule that changes with every load); 1-2 updaters x 1-2 updates of resource R: whole-set load, per-resource load, per-resource clear, load of an unrelated resource; 1-2 callers x 1-3 requests on R / on the un-churned always-block resource S / getter calls; choice sequence at every lock acquisition of the module's rule manager (and parameter caches) and every shimmed atomic access of the per-rule checks) under random walk, PCT d<=3 and bounded DFS; requests decided by one admissible list, S always blocked by its own rule, reported == enforced and final state = outcome of an update that finished last, termination. distinct = distinct (case, interleaving).")
 	run.Assume("generation g is admissible for a request unless another update both began after g's update returned and returned before the request began", "lock acquisitions and the shimmed atomics are the scheduling points")
 	{
 		c0 := atomic.LoadUint64(&vatomic.Count)
